@@ -129,7 +129,7 @@ var splitterMap = map[DataCoding]Splitter{
 	Latin1Coding:    _1ByteSplitter,
 	ShiftJISCoding:  _MultibyteSplitter,
 	ISO2022JPCoding: _MultibyteSplitter,
-	EUCJPCoding:     _MultibyteSplitter,
+	EUCJPCoding:     measuredSplitter(japanese.EUCJP),
 	EUCKRCoding:     _MultibyteSplitter,
 	UCS2Coding:      _UTF16Splitter,
 }
